@@ -120,7 +120,10 @@ _LP = dict(index='k', types={'aa': 'list[char]'}, invariant=[
 LOOPS[CX + 'reduce_alphabet'] = {i: _LP for i in range(3, 3 + 11)}
 # the de-duplicating loop that lists the images of a user alphabet: cut (not unrolled: 2^20 paths) with a membership invariant
 LOOPS[CX + 'reduce_alphabet'][2] = dict(index='k', types={'alphabet': 'list[char]'}, invariant=[
-    'forall(lambda x: exists(lambda a: alphabet[x] == ua_map(TWENTY[a], userAlphabet), 0, 20), 0, length(alphabet))'])
+    # the list holds only images, every image of the residues seen so far, and no image twice
+    'forall(lambda x: exists(lambda a: And(a < k, alphabet[x] == ua_map(TWENTY[a], userAlphabet)), 0, 20), 0, length(alphabet))',
+    'forall(lambda a: implies(a < k, exists(lambda x: alphabet[x] == ua_map(TWENTY[a], userAlphabet), 0, length(alphabet))), 0, 20)',
+    'forall(lambda x: forall(lambda y: Not(alphabet[x] == alphabet[y]), 0, x), 0, length(alphabet))'])
 LOOPS[CX + 'reduce_alphabet'][1] = dict(index='k', types={'aa': 'list[char]'}, invariant=[
     'length(aa) == k', 'forall(lambda j: aa[j] == ua_map(sequence[j], userAlphabet), 0, k)'])
 
@@ -133,7 +136,10 @@ CONTRACT[CX + 'reduce_alphabet#user'] = dict(
     self=mk_cx, params={'sequence': aa_seq, 'alphabetSize': 'int', 'userAlphabet': user_alpha}, modifies=[],
     raises=[('SequenceComplexityException', 'Not(ua_valid(userAlphabet))')],
     ensures=['length(result[0]) == length(sequence)',
-             'forall(lambda j: result[0][j] == ua_map(sequence[j], userAlphabet), 0, length(sequence))'])
+             'forall(lambda j: result[0][j] == ua_map(sequence[j], userAlphabet), 0, length(sequence))',
+             'forall(lambda x: exists(lambda a: result[1][x] == ua_map(TWENTY[a], userAlphabet), 0, 20), 0, length(result[1]))',
+             'forall(lambda a: exists(lambda x: result[1][x] == ua_map(TWENTY[a], userAlphabet), 0, length(result[1])), 0, 20)',
+             'forall(lambda x: forall(lambda y: Not(result[1][x] == result[1][y]), 0, x), 0, length(result[1]))'])
 
 for _k in ('reduce_alphabet', 'reduce_alphabet#badsize', 'reduce_alphabet#user'):
     CONTRACT[CX + _k]['requires'] = list(CONTRACT[CX + _k].get('requires', [])) + ['forall(lambda j: is_aa(sequence[j]), 0, length(sequence))']
